@@ -371,6 +371,8 @@ def query_set_humidity_query(atmo, h1, hum, h2):
 # ---------------------------------------------------------------------------------------
 # C07 harnesses: preferred units only choose how bare numbers are read
 from py_ballisticcalc.conditions import Wind, Shot  # noqa: E402
+from py_ballisticcalc.trajectory_calc._trajectory_calc import _TrajectoryDataFilter  # noqa: E402
+from py_ballisticcalc.vector import Vector  # noqa: E402
 from py_ballisticcalc.munition import Weapon, Ammo, Sight  # noqa: E402
 from py_ballisticcalc.drag_model import DragModel, BCPoint, DragModelMultiBC  # noqa: E402
 from py_ballisticcalc.unit import Velocity, Angular, Weight  # noqa: E402
@@ -498,3 +500,34 @@ from pyvc.rt import uninterpreted  # noqa: E402
 def zero_run_height(barrel_elevation, horizontal_range):
     """height (ft) of the single row returned by _integrate(shot, R, R, NONE) when fired with that elevation"""
     raise NotImplementedError('uninterpreted specification function')
+
+
+# ---------------------------------------------------------------------------------------
+# C15 history harness: a filter built by its real constructor sees four successive Mach numbers
+def mach_flags_over_four_steps(v1, v2, v3, v4):
+    """MACH flag raised at steps 2, 3, 4 of a filter that sees speeds v1..v4 (speed of sound 1)"""
+    f = _TrajectoryDataFilter(31, 100.0, Vector(0.0, 0.0, 0.0), Vector(1.0, 0.0, 0.0))
+    f.check_mach_crossing(v1, 1.0)
+    f.clear_current_flag()
+    f.check_mach_crossing(v2, 1.0)
+    a = (f.current_flag & 4) != 0
+    f.clear_current_flag()
+    f.check_mach_crossing(v3, 1.0)
+    b = (f.current_flag & 4) != 0
+    f.clear_current_flag()
+    f.check_mach_crossing(v4, 1.0)
+    c = (f.current_flag & 4) != 0
+    return (a, b, c)
+
+
+def zero_flags_over_three_points(sight_height_neg, look, y1, y2, y3):
+    """ZERO_UP / ZERO_DOWN flags at three successive points x = 1, 2, 3 of a filter set up for a muzzle below the sight
+    line (height = -sight_height_neg < 0) and a barrel above it"""
+    f = _TrajectoryDataFilter(31, 100.0, Vector(0.0, -sight_height_neg, 0.0), Vector(1.0, 0.0, 0.0))
+    f.setup_seen_zero(-sight_height_neg, look + 0.01, look)
+    out = []
+    for x, y in ((1.0, y1), (2.0, y2), (3.0, y3)):
+        f.clear_current_flag()
+        f.check_zero_crossing(Vector(x, y, 0.0))
+        out.append(f.current_flag & 3)
+    return (out[0], out[1], out[2])
